@@ -426,9 +426,11 @@ Read(fn) == /\ fn \in ReadFns
             /\ hostInPos' = hostInPos
             /\ UNCHANGED <<ioargs, sinks>>
 \* os.Args is Options.Args; the flag package parses Options.Args[1:]
-\* (a flag can be defined once per flag set, hence once per history)
+\* (a flag can be defined once per flag set, and the package-level functions and
+\* flag.CommandLine are one flag set: one flag operation per history)
+FlagFns == {"flag.pkg", "flag.CommandLine"}
 ReadArgs(fn) == /\ fn \in ArgFns
-                /\ (fn # "os.Args" => \A i \in 1..Len(iohist) : iohist[i].fn # fn)
+                /\ (fn \in FlagFns => \A i \in 1..Len(iohist) : iohist[i].fn \notin FlagFns)
                 /\ iohist' = Append(iohist, IoRec(fn,
                        IF fn = "os.Args" THEN IoRet(0, ArgList(ioargs), "")
                        ELSE IoRet(0, <<"rest">>, FlagVal(ioargs))))
@@ -444,7 +446,7 @@ IoReset == /\ OthersThanIo
            /\ ioargs' = RandomElement(ArgShapes) /\ sinks' = NoSinks /\ inPos' = 0 /\ hostInPos' = 0
            /\ lineStart' = TRUE /\ iohist' = <<>>
 IoEnabled(fn) == /\ (fn \in ReadFns \ {"fmt.Scan"} => lineStart)
-                 /\ (fn \in ArgFns \ {"os.Args"} => \A i \in 1..Len(iohist) : iohist[i].fn # fn)
+                 /\ (fn \in FlagFns => \A i \in 1..Len(iohist) : iohist[i].fn \notin FlagFns)
 IoSimNext == IF Len(iohist) >= SimLen
              THEN IoReset
              ELSE \E fn \in {RandomElement({f \in SimIoFns : IoEnabled(f)})} : IoStep(fn)
